@@ -146,6 +146,10 @@ def run_property(ck, b, prop, cfg, tier, seed, replay, t0):
                 if not conf.get("same_oracle"):
                     harness_trouble.append("replay %s did not reproduce in a fresh process (harness nondeterminism): %s" % (dst, json.dumps(conf)[:600]))
                     continue
+                if rp["violation"]["oracle"] == "harness" or rp["violation"]["oracle"].endswith(".harness"):
+                    # the harness could not set up or tear down its own world: never a verdict
+                    harness_trouble.append("harness failure (replay %s): %s" % (dst, rp["violation"]["message"][:800]))
+                    continue
                 violations.append(dict(oracle=rp["violation"]["oracle"], message=rp["violation"]["message"], replay=dst))
         else:
             mod = __import__(st["module"])
